@@ -1069,6 +1069,27 @@ def unique(a, return_index=False, return_inverse=False, return_counts=False, axi
         if return_counts:
             res.append(np.array(counts, dtype=int))
         return res[0] if len(res) == 1 else tuple(res)
+    if axis == 0 and ca.ndim == 2:
+        rows = [tuple(r) for r in ca.tolist()]
+        order = sorted(range(len(rows)), key=lambda i: rows[i])
+        uniq, first, inv, counts = [], [], [0] * len(rows), []
+        for i in order:
+            if uniq and rows[i] == uniq[-1]:
+                counts[-1] += 1
+                first[-1] = min(first[-1], i)
+            else:
+                uniq.append(rows[i])
+                first.append(i)
+                counts.append(1)
+            inv[i] = len(uniq) - 1
+        res = [_build_obj([[P(v) for v in r] for r in uniq])]
+        if return_index:
+            res.append(np.array(first, dtype=int))
+        if return_inverse:
+            res.append(np.array(inv, dtype=int))
+        if return_counts:
+            res.append(np.array(counts, dtype=int))
+        return res[0] if len(res) == 1 else tuple(res)
     raise Undecided("np.unique(axis=...) on symbolic data")
 
 
@@ -1380,6 +1401,8 @@ def native_getattr(it, obj, name):
                     return obj.reshape(*[int(P(s)) if isinstance(s, (Fraction, Poly)) else s for s in shape], **k)
                 return _reshape
             return m
+        if not hasattr(obj, name):
+            raise InterpRaise(AttributeError("'numpy.ndarray' object has no attribute %r" % name), it.where())
         raise it.undecided("ndarray attribute %r" % name)
     if isinstance(obj, Poly):
         if name in ("shape",):
@@ -1793,7 +1816,7 @@ meshgrid trace diagonal cross outer kron tensordot cumsum diff add subtract mult
 atleast_1d atleast_2d atleast_3d split array_split hsplit vsplit column_stack row_stack take_along_axis
 put_along_axis unravel_index ravel_multi_index argwhere logical_and logical_or logical_not logical_xor any all
 count_nonzero shape ndim size copy block einsum_path searchsorted bincount lexsort rot90 compress choose select
-broadcast_shapes invert bitwise_and bitwise_or mod floor_divide cumprod isscalar iterable may_share_memory shares_memory
+broadcast_shapes invert bitwise_and bitwise_or mod floor_divide cumprod iterable may_share_memory shares_memory
 """.split()
 
 
@@ -1865,6 +1888,7 @@ def externals(it):
         round=np_round, around=np_round, sum=np_sum, mean=np_mean, average=np_mean, prod=np_prod, product=np_prod,
         isnan=isnan, isfinite=isfinite, isinf=isinf, deg2rad=deg2rad, rad2deg=rad2deg, radians=deg2rad, degrees=rad2deg,
         any=_np_any, all=_np_all, floor=_floor, ceil=_ceil, vectorize=_vectorize,
+        isscalar=lambda x: isinstance(x, (int, Fraction, Poly, np.integer, np.bool_, bool, str)),
         pi=ring.pi(), newaxis=None, nan=Opaque("nan"), inf=Opaque("inf"), e=ring.fun_atom("Exp", ONE),
         ndarray=np.ndarray, generic=np.generic,
         float64=TypeMarker("float64", _np_float, lambda x: isinstance(x, (Fraction, Poly))),
